@@ -285,7 +285,13 @@ func visitInstr(fr *frame, instr ssa.Instruction) continuation {
 		fr.env[instr] = fr.get(instr.X) // (can't fail)
 
 	case *ssa.Convert:
-		fr.env[instr] = conv(instr.Type(), instr.X.Type(), fr.get(instr.X))
+		r := conv(instr.Type(), instr.X.Type(), fr.get(instr.X))
+		if m := fr.i.mon; m != nil {
+			if sl, ok := r.([]value); ok {
+				m.ownSlice(sl) // string -> []byte / []rune allocates
+			}
+		}
+		fr.env[instr] = r
 
 	case *ssa.SliceToArrayPointer:
 		fr.env[instr] = sliceToArrayPointer(instr.Type(), instr.X.Type(), fr.get(instr.X))
